@@ -285,7 +285,7 @@ func (o Lazy[T]) MarshalJSON() ([]byte, error) {
 	return json.Marshal(data)
 }
 
-func (o Lazy[T]) UnmarshalJSON(data []byte) error {
+func (o *Lazy[T]) UnmarshalJSON(data []byte) error {
 
 	if string(data) == "null" {
 		o.fetcher = func(_ context.Context) (*T, error) {
